@@ -803,3 +803,31 @@ Lemma bpow_m53_small : 0 < bpow radix2 (-53) <= 1 / 4.
 Proof.
   split; [apply bpow_gt_0 |]. replace (1 / 4) with (bpow radix2 (-2)) by (simpl; lra). apply bpow_le. lia.
 Qed.
+
+(* ------------------------------------------------------------------ scaling by powers of two, a wider no-overflow bound *)
+Lemma fmt_scale x k : fmt x -> (0 <= k)%Z -> fmt (x * bpow radix2 k).
+Proof.
+  intros Fx Hk. unfold fmt in *.
+  change fexp64 with (FLT_exp (SpecFloat.emin prec emax) prec) in *.
+  apply FLT_format_generic in Fx; [| exact Hprec]. destruct Fx as [[m e] H1 H2 H3]. simpl in H2, H3.
+  apply generic_format_FLT. exists (Float radix2 m (e + k)); simpl.
+  - rewrite H1. unfold F2R. simpl. rewrite bpow_plus. ring.
+  - exact H2.
+  - lia.
+Qed.
+Definition BIG3 : R := 3 * bpow radix2 1022.     (* 1.5 * 2^1023, still below the overflow threshold *)
+Lemma fmt_BIG3 : fmt BIG3.
+Proof.
+  unfold BIG3. replace (3 * bpow radix2 1022) with (3 / 2 * bpow radix2 1023).
+  - apply fmt_scale; [apply fmt_3half | lia].
+  - change 1023%Z with (1 + 1022)%Z. rewrite bpow_plus. change (bpow radix2 1) with 2. field.
+Qed.
+Lemma safe_BIG3 r : Rabs r <= BIG3 -> safe r.
+Proof.
+  intros H. unfold safe, RN. apply Rle_lt_trans with BIG3.
+  - apply abs_round_le_generic; auto with typeclass_instances. apply fmt_BIG3.
+  - unfold BIG3, emax. change 1024%Z with (2 + 1022)%Z. rewrite bpow_plus. change (bpow radix2 2) with 4.
+    assert (0 < bpow radix2 1022) by apply bpow_gt_0. lra.
+Qed.
+Lemma BIG_2_1022 : BIG = 2 * bpow radix2 1022.
+Proof. unfold BIG. change 1023%Z with (1 + 1022)%Z. rewrite bpow_plus. reflexivity. Qed.
